@@ -1207,6 +1207,18 @@ class DistributedShampoo(torch.optim.Optimizer):
                     logger.warning(f"Parameter {param} not found in state!")
                     continue
 
+            # Check that every entry held in the current parameter state is present in the state to load.
+            # NOTE: OptimizerModule.load_state_dict silently skips entries missing inside a module.
+            if enable_missing_key_check:
+                missing_keys = (
+                    flatten(extract_state_dict_content(self.state[param])).keys()
+                    - param_state.keys()
+                )
+                if missing_keys:
+                    raise KeyError(
+                        f"Keys {sorted(missing_keys)} of parameter {param_key} not found in state dict to load."
+                    )
+
             # Update parameter state.
             update_param_state_dict_object(
                 self.state[param],
